@@ -184,7 +184,7 @@ func c10Open(r *Run) {
 		model                   bool
 	}
 	specs := []spec{{5, 2, 0, 1, true}, {8, 3, 1, 0, true}, {9, 2, 2, 1, true}, {64, 2, 0, 0, true}, {65, 3, 1, 1, true}, {200, 2, 2, 0, true},
-		{1000, 2, 0, 1, true}, {1025, 2, 1, 1, r.Seed%2 == 0}, {1025, 2, 2, 1, r.Seed%2 == 1}, {4097, 2, 0, 1, false}, {5000, 2, 1, 1, false}, {5000, 3, 0, 1, false}}
+		{512, 2, int(r.Seed) % 3, 1, true}, {1000, 2, 0, 1, !r.Quick}, {1025, 2, 1, 1, !r.Quick}, {1025, 2, 2, 1, !r.Quick}, {4097, 2, 0, 1, false}, {5000, 2, 1, 1, false}, {5000, 3, 0, 1, false}}
 	if !r.Quick {
 		specs = append(specs, spec{2500, 2, 0, 1, true}, spec{3000, 2, 1, 1, true}, spec{20000, 2, 0, 1, false}, spec{60000, 2, 0, 1, false}, spec{256, 2, 0, 0, true})
 	}
@@ -400,4 +400,38 @@ func c10TwoInstances(r *Run) {
 			}
 		}
 	}
+}
+
+// spreadHeavy moves the model cases that take seconds to evaluate (long generated histories, the 65,536-pair
+// grids) to evenly spaced positions of the case list: the driver cuts the list into shards of consecutive
+// cases evaluated in parallel, and several heavy cases in one shard make that shard the critical path.
+func spreadHeavy(r *Run, heavy func(expr string) bool) {
+	var hd, he, ld, le []string
+	for i, e := range r.caseExprs {
+		if heavy(e) {
+			hd, he = append(hd, r.caseDescs[i]), append(he, e)
+		} else {
+			ld, le = append(ld, r.caseDescs[i]), append(le, e)
+		}
+	}
+	if len(he) == 0 || len(le) == 0 {
+		return
+	}
+	step := len(le) / len(he)
+	if step < 1 {
+		step = 1
+	}
+	var od, oe []string
+	k := 0
+	for i := range le {
+		if i%step == 0 && k < len(he) {
+			od, oe = append(od, hd[k]), append(oe, he[k])
+			k++
+		}
+		od, oe = append(od, ld[i]), append(oe, le[i])
+	}
+	for ; k < len(he); k++ {
+		od, oe = append(od, hd[k]), append(oe, he[k])
+	}
+	r.caseDescs, r.caseExprs = od, oe
 }
